@@ -168,7 +168,12 @@ func (s *Sim) Run(t *rapid.T, o RunOpts) error {
 				amt = s.DrawAmount(t, x)
 				exp = uint32(rapid.IntRange(500, 520).Draw(t, "expiry"))
 			}
-			_, err = s.DoAdd(x, amt, exp, dup)
+			var dupExp uint32
+			if dup != nil && rapid.Bool().Draw(t, "dupOtherExpiry") {
+				dupExp = uint32(rapid.IntRange(500, 520).Draw(t, "dupExpiry"))
+				s.label("duplicate_htlc_other_expiry")
+			}
+			_, err = s.DoAddExp(x, amt, exp, dup, dupExp)
 		case "resolveA", "resolveB":
 			y := int(name[7] - 'A')
 			rs := s.Resolvable(y)
